@@ -99,3 +99,6 @@ package msgpack
 //@   let E ($at<github.com/vmihailenco/msgpack/v5.Encoder> enc)
 //@   ensures[C16] number_exact: (=> (and (= result nil.Any) (not (is_marked val)) (kn val) (is_number_ty ty) (is_number_ty (vty val)) (= (num_i val) 0) (not (raw_eq val $G<cty.PositiveInfinity>)) (not (raw_eq val $G<cty.NegativeInfinity>))) (tok_exact (enc.last E) (num_r val)))
 //@   ensures[C16] null_token: (=> (and (= result nil.Any) (not (is_marked val)) (is_known val) (is_null val) (not (is_dyn_ty ty))) (= (enc.last E) tok_nil))
+//@   ensures[C16] number_text: (=> (and (= result nil.Any) (not (is_marked val)) (kn val) (is_number_ty ty) (is_number_ty (vty val)) (= (num_i val) 0) (not (raw_eq val $G<cty.PositiveInfinity>)) (not (raw_eq val $G<cty.NegativeInfinity>)) ((_ is tok_str) (enc.last E))) (= (tok_str.v (enc.last E)) (num_textf 0 (num_r val) (bf.negzero (bf_of val)) (bf.prec (bf_of val)) 102 (- 1))))
+//@   ensures[C16] bool_token: (=> (and (= result nil.Any) (not (is_marked val)) (kn val) (is_bool_ty ty) (is_bool_ty (vty val))) (= (enc.last E) (tok_bool (bool_of val))))
+//@   ensures[C16] string_token: (=> (and (= result nil.Any) (not (is_marked val)) (kn val) (is_string_ty ty) (is_string_ty (vty val))) (= (enc.last E) (tok_str (str_of val))))
